@@ -55,6 +55,7 @@ class World:
         self.queried = None
         self.cancel_code = "OK"            # what the scheduler answers to cancel_jobs
         self.peak_live = 0                 # the largest number of simultaneously live jobs so far
+        self.foreign_scripts = []          # submissions whose script file did not hold the step's own command
         self.via = None                    # "slurm" / "lsf": a real adapter interprets the answers
         self.via_rng = None
 
@@ -114,6 +115,13 @@ class ScriptedAdapter(ScriptAdapter):
     def submit(self, step, path, cwd, job_map=None, env=None):
         k, ok = WORLD.outcome()
         name = step.real_name
+        if WORLD.write_files and os.path.exists(path):
+            # the scheduler reads the file it is given, at the moment it is given
+            want = step.run["restart"] if _kind(path) == "restart" else step.run["cmd"]
+            with open(path) as f:
+                text = f.read()
+            if "\n\n{}\n".format(want) not in text:
+                WORLD.foreign_scripts.append((name, _kind(path), path, text[-120:]))
         if ok:
             jid = str(k + 1)
             WORLD.job_owner[jid] = name
